@@ -27,12 +27,23 @@ func (x Expr) BracketString() string {
 // the expanded buffer.
 func (x Expr) Append(buf []byte, brackets ...bool) []byte {
 	bracket := 0 < len(brackets) && brackets[0]
+	afterDescent := false
 	for i, frag := range x {
 		if _, ok := frag.(Bracket); ok {
 			bracket = true
 			continue
 		}
+		start := len(buf)
 		buf = frag.Append(buf, bracket, i == 0)
+		if afterDescent && !bracket && start < len(buf) && buf[start] == '[' {
+			// A descent is written as a single . and relies on the next
+			// fragment to add the second one. A fragment in bracket form
+			// does not so add it here, $..[0] and not $.[0].
+			buf = append(buf, 0)
+			copy(buf[start+1:], buf[start:])
+			buf[start] = '.'
+		}
+		_, afterDescent = frag.(Descent)
 	}
 	if 0 < len(x) && !bracket {
 		// A trailing descent in dot form is written as .. while the bracket
